@@ -589,6 +589,12 @@ def ResolveBinaryExpressionType(
         ) != _GetRowsColumns(right):
             Errors.ERROR_INCOMPATIBLE_TYPES.Raise(left, right)
 
+        # Matrices cannot be compared, there is no lowering for it
+        if left.IsMatrix():
+            Errors.ERROR_INVALID_BINARY_EXPRESSION_OPERATION.Raise(
+                operation, left, right
+            )
+
         # Cast may be still necessary if we compare integers with floats
         baseType = _GetCommonPrimitiveType(left, right)
 
